@@ -281,3 +281,20 @@ def core_toggled(t, nadds):
                 yield pre + [['chk', False], ['rm', i], ['chk', True], ['str', False]]
             for s in alpha:
                 yield pre + [['chk', False], ['add', s, None], ['chk', True], ['str', False]]
+
+
+def core_remove_and_restore(t, tier='quick'):
+    """a valid word (every word <= 3, a transition cover, short pumped words), one child removed and a child of the same name
+    added again: the hole must be filled where it was (same verdict / text / acceptance as the fresh twin)"""
+    d = ref.DFAS[t]
+    seen = set()
+    words = d.words(3, limit=60 if tier == 'quick' else 600) + d.transition_cover()[:20 if tier == 'quick' else 200] + \
+        d.pumped_words((6,))[:8 if tier == 'quick' else 40]
+    for w in words:
+        w = tuple(w)
+        if not w or w in seen or len(w) > 12:
+            continue
+        seen.add(w)
+        adds = [['add', s, None] for s in w]
+        for i in range(len(w)):
+            yield adds + [['rm', i], ['add', w[i], None]]
